@@ -263,6 +263,12 @@ func wireHelloOf(mk func(c *hlib.BufConn) *tls.UConn) (u *tls.UConn, wire []byte
 }
 
 func runC02(cs c02Case) (ev map[string]any, herr error) {
+	t0 := time.Now()
+	defer func() {
+		if ev != nil {
+			ev["ms"] = int(time.Since(t0).Milliseconds())
+		}
+	}()
 	ev = map[string]any{"ev": "Hello", "sc": cs.Sc, "stage": "src", "srcerr": "", "preseterr": "", "builderr": "", "built": false,
 		"raw": []int{}, "started": false, "hserr": "", "onwire": false, "wire": []int{}, "wiresame": false, "nwire": 0, "panic": "", "warm": "",
 		"edited": false, "editerr": "", "raw2": []int{}, "wire2": []int{}, "serr": ""}
